@@ -240,11 +240,17 @@ def compile_rule(doc, macros=None):
         return classify_exc(exc)
 
 
-def cli(args, cwd, timeout=120, env_extra=None):
+CONSOLE_SCRIPT = os.path.join(os.path.dirname(sys.executable), "jasm")
+
+
+def cli(args, cwd, timeout=120, env_extra=None, entry="module"):
+    """entry: "module" = python -m jasm.main; "script" = the installed console script (a three-line stub that calls
+    jasm.main.main()), run by the same interpreter with the tree under test first on the path."""
     e = dict(os.environ)
     e["PYTHONPATH"] = env.SRC
     e["PYTHONHASHSEED"] = "0"
     if env_extra:
         e.update(env_extra)
-    p = subprocess.run([sys.executable, "-m", "jasm.main", *args], cwd=cwd, capture_output=True, text=True, timeout=timeout, env=e)
+    head = [sys.executable, CONSOLE_SCRIPT] if entry == "script" and os.path.exists(CONSOLE_SCRIPT) else [sys.executable, "-m", "jasm.main"]
+    p = subprocess.run([*head, *args], cwd=cwd, capture_output=True, text=True, timeout=timeout, env=e)
     return p.returncode, p.stdout, p.stderr
